@@ -461,6 +461,10 @@ class Prop(Check):
         "Obj.C06_line_monotone",
         "Obj.C06_col_monotone",
         "Obj.C06_linecol_strict_mono",
+        "Obj.C06_linecol_origin",
+        "Obj.C06_linecol_after_newline",
+        "Obj.C06_linecol_next",
+        "Obj.C06_linecol_unique",
         "Obj.C06_tree_span",
         "Obj.C06_tree_nesting",
         "Obj.C06_tree_siblings",
